@@ -103,8 +103,9 @@ pub(crate) fn run_scheduling_solver(
                         && worker.has_time_to_run(rq.min_time(), now)
                         && worker_groups
                             .get(&worker.configuration.group)
-                            .unwrap()
-                            .is_capable_to_run_rq(rq, now, worker_map)
+                            // (the hypothetical workers of a worker query belong to no group;
+                            // multi-node demand is computed from the queue sizes)
+                            .is_some_and(|group| group.is_capable_to_run_rq(rq, now, worker_map))
                     {
                         set_placement_name(&mut solver, worker.id, batch.resource_rq_id, v_idx);
                         let v = create_mn_var(
